@@ -11,6 +11,7 @@ import (
 	"github.com/aukilabs/hagall-common/messages/hagallpb"
 	"github.com/aukilabs/hagall-common/messages/odalpb"
 	"github.com/aukilabs/hagall-common/messages/vikjapb"
+	"google.golang.org/protobuf/proto"
 	"google.golang.org/protobuf/types/known/timestamppb"
 )
 
@@ -44,20 +45,23 @@ type Exec struct {
 	M   *Model
 	Ex  Exclusions
 
-	cur     map[int]int
-	delta   map[int][]Rx
-	nextReq uint32
-	stepIdx int
+	cur       map[int]int
+	delta     map[int][]Rx
+	nextReq   uint32
+	stepIdx   int
 	traceStep int // finer-grained step counter for the recorded trace: 4*stepIdx + sub-step
-	Viol    []Violation
-	stop    bool
+	Viol      []Violation
+	stop      bool
 
 	Excluded                int
 	Labels                  map[string]int
 	Registry                bool    // also check session gauge and frame workers (C07)
 	Gauge0                  float64 // gauge value when the case started
 	lat                     map[int]*latRun
-	G0                      int                           // goroutines in the process when the case started
+	G0                      int           // goroutines in the process when the case started
+	Idle                    time.Duration // idle timeout the server was configured with (0 = not modelled)
+	sentAt                  time.Time
+	optional map[int]bool // recipients that may or may not get the relays of the current event
 	applied                 map[int]map[int32]int         // slot -> broadcast type -> count applied to its view
 	unsubAt                 map[*MSession]map[uint32]bool // types that lost a subscriber
 	actorBefore, actorAfter *MSession
@@ -67,6 +71,7 @@ type Exec struct {
 func NewExec(d Driver, cfg Config) *Exec {
 	e := &Exec{Cfg: cfg, M: NewModel(), cur: map[int]int{}, delta: map[int][]Rx{}, nextReq: 100, Labels: map[string]int{}, lat: map[int]*latRun{}, applied: map[int]map[int32]int{}, unsubAt: map[*MSession]map[uint32]bool{}}
 	e.Rec = newRecDriver(d, &e.traceStep)
+	e.Rec.onSend = func(int) { e.sentAt = time.Now() }
 	e.D = e.Rec
 	return e
 }
@@ -91,7 +96,10 @@ func sameTS(a, b *timestamppb.Timestamp) bool {
 // collect gathers what every connection received since the last call.
 func (e *Exec) collect() {
 	e.delta = map[int][]Rx{}
-	for slot := range e.M.Conns {
+	for slot, mc := range e.M.Conns {
+		if mc.Stalled {
+			continue
+		}
 		in := e.D.Inbox(slot)
 		if e.cur[slot] < len(in) {
 			for _, rx := range in[e.cur[slot]:] {
@@ -132,7 +140,7 @@ func (e *Exec) conn(slot int) *MConn {
 	if mc == nil || mc.Ended {
 		e.D.Connect(slot)
 		e.cur[slot] = 0
-		mc = &MConn{Slot: slot, PendingPose: map[uint32]*Step{}, PendingComp: map[CompKey]*Step{}}
+		mc = &MConn{Slot: slot, PendingPose: map[uint32]*Step{}, PendingComp: map[CompKey]*Step{}, LastAct: time.Now()}
 		e.M.Conns[slot] = mc
 		delete(e.lat, slot)
 		e.label("connect")
@@ -333,6 +341,44 @@ func (e *Exec) Run(sc Script) {
 	e.stepIdx = len(sc.Steps)
 }
 
+// Finish closes whatever is still connected (checking each departure) and
+// then verifies that nothing of any connection or session is left behind.
+func (e *Exec) Finish() {
+	if len(e.Viol) > 0 {
+		return
+	}
+	slots := make([]int, 0, len(e.M.Conns))
+	for s := range e.M.Conns {
+		slots = append(slots, s)
+	}
+	sort.Ints(slots)
+	for _, slot := range slots {
+		mc := e.M.Conns[slot]
+		if mc.Ended {
+			continue
+		}
+		e.stepIdx++
+		e.traceStep = 4 * e.stepIdx
+		e.actorBefore, e.stepTags = mc.Sess, ""
+		e.doClose(mc)
+		e.actorAfter = nil
+		e.annotate(slot)
+		e.after(mc)
+		if len(e.Viol) > 0 {
+			return
+		}
+	}
+	if len(e.M.Live) != 0 {
+		e.fail("C07,C08", "%d session(s) live in the model after every connection was closed", len(e.M.Live))
+	}
+	for _, l := range e.D.Leaks() {
+		e.fail("C08,C07,C06", "after every connection has ended: %s", l)
+	}
+	if g := sessionGauge() - e.Gauge0; g != 0 {
+		e.fail("C07,C08", "after every connection has ended the session gauge is off by %v", g)
+	}
+}
+
 func (e *Exec) Step(st Step) {
 	if st.Op == OpTick {
 		e.traceStep = 4 * e.stepIdx
@@ -361,11 +407,18 @@ func (e *Exec) Step(st Step) {
 			return
 		}
 	}
+	if mc.Stalled && st.Op != OpSilence {
+		// a client that stopped reading stays silent until it is dropped as
+		// idle (an ACTIVE staller is never dropped: known finding)
+		e.label("step_of_stalled_client_skipped")
+		return
+	}
 	e.traceStep = 4*e.stepIdx + 1
 	e.actorBefore = mc.Sess
 	e.stepTags = ""
 	e.nextReq++
 	req := e.nextReq
+	e.sentAt = time.Now()
 
 	switch st.Op {
 	case OpJoin:
@@ -413,12 +466,22 @@ func (e *Exec) Step(st Step) {
 	case OpUnknown:
 		e.D.Send(mc.Slot, &hagallpb.Request{Type: hagallpb.MsgType(st.Count), Timestamp: e.reqTS(), RequestId: req})
 		e.collect()
+	case OpGarbage, OpText, OpBadTyped, OpBurstBad, OpBurstPing, OpSilence, OpStall, OpAbort:
+		e.doHostile(mc, st, req)
 	case OpNoTS:
 		e.D.Send(mc.Slot, &hagallpb.ParticipantJoinRequest{Type: TJoinReq, RequestId: req})
 		e.collect()
 		e.expectEnded(mc, "C08,C06", "a frame without timestamp")
 	default:
 		panic("unknown op " + string(st.Op))
+	}
+	switch st.Op {
+	case OpPose, OpCompUpdate, OpGarbage, OpText, OpNoTS, OpStall, OpSilence, OpAbort, OpClose:
+		// not consumed by the connection's main loop (or no message at all)
+	default:
+		if !mc.Ended {
+			mc.LastAct = e.sentAt
+		}
 	}
 	e.actorAfter = mc.Sess
 	e.annotate(mc.Slot)
@@ -459,6 +522,12 @@ func (e *Exec) markJoin(inst int) {
 
 // after runs the checks that apply after every step.
 func (e *Exec) after(actor *MConn) {
+	for slot, mc := range e.M.Conns {
+		if !mc.Ended && e.D.Ended(slot) {
+			e.fail("C08,C04", "connection c%d was ended by the server without a reason the protocol gives", slot)
+			return
+		}
+	}
 	e.leftovers(actor)
 	if len(e.Viol) > 0 {
 		return
@@ -537,7 +606,14 @@ func (e *Exec) expectRelayTo(slots []int, t int32, tags, what string, ok func(Rx
 		e.label("relay_to_2plus")
 	}
 	for _, slot := range slots {
+		if c := e.M.Conns[slot]; c != nil && c.Stalled {
+			e.label("relay_to_stalled_client")
+			continue // queued on the server; the client is not reading
+		}
 		_, found := e.take(slot, func(r Rx) bool { return r.T == t && ok(r) == "" })
+		if !found && e.optional[slot] {
+			continue // that recipient goes at the same instant
+		}
 		if !found {
 			// is there one of the right type with wrong content?
 			if bad, f2 := e.take(slot, isType(t)); f2 {
@@ -1067,7 +1143,7 @@ func (e *Exec) checkViews() {
 	sort.Ints(slots)
 	for _, slot := range slots {
 		mc := e.M.Conns[slot]
-		if !mc.joined() || mc.View == nil {
+		if !mc.joined() || mc.View == nil || mc.Stalled {
 			continue
 		}
 		if d := diffView(mc.View, mc.Sess); len(d) > 0 {
@@ -1262,21 +1338,96 @@ func (e *Exec) advance(d time.Duration) {
 	fr := e.D.Frame()
 	cands := map[*MSession]map[CompKey][][]byte{}
 	defer func() { e.reconcileCompConflicts(cands) }()
-	ticked := map[*MSession]bool{}
-	for _, s := range e.M.Live {
-		if t1.Sub(s.Born)/fr > t0.Sub(s.Born)/fr {
-			ticked[s] = true
+	// events in (t0, t1] in time order: the first frame tick of every session
+	// that has something pending, and idle deadlines of silent connections
+	flushed := map[*MSession]bool{}
+	for guard := 0; guard < 10000; guard++ {
+		var evT time.Time
+		var evS *MSession
+		var evC *MConn
+		consider := func(t time.Time, s *MSession, c *MConn) {
+			if t.After(t1) || !t.After(t0) {
+				return
+			}
+			if evT.IsZero() || t.Before(evT) {
+				evT, evS, evC = t, s, c
+			}
+		}
+		for _, s := range e.M.Live {
+			if flushed[s] || !e.hasPending(s) {
+				continue
+			}
+			k := t0.Sub(s.Born)/fr + 1
+			consider(s.Born.Add(k*fr), s, nil)
+		}
+		if e.Idle > 0 {
+			for _, mc := range e.M.Conns {
+				if !mc.Ended {
+					consider(mc.LastAct.Add(e.Idle), nil, mc)
+				}
+			}
+		}
+		if evT.IsZero() {
+			break
+		}
+		_ = evC
+		if evS != nil {
+			flushed[evS] = true
+			e.flushSession(evS, evT, cands)
+		} else {
+			// every connection whose deadline is this very instant goes at once, in no defined order
+			var group []*MConn
+			for _, mc := range e.M.Conns {
+				if !mc.Ended && mc.LastAct.Add(e.Idle).Equal(evT) {
+					group = append(group, mc)
+				}
+			}
+			sort.Slice(group, func(i, j int) bool { return group[i].Slot < group[j].Slot })
+			e.optional = map[int]bool{}
+			for _, mc := range group {
+				e.optional[mc.Slot] = true
+			}
+			for _, mc := range group {
+				e.label("idle_timeout")
+				if mc.Sess != nil && len(mc.Sess.ownedBy(mc.Pid, nil)) > 0 {
+					e.label("idle_timeout_owning_entities")
+				}
+				e.stepTags = "C08"
+				e.expectEnded(mc, "C08", fmt.Sprintf("being silent for the idle timeout %v", e.Idle))
+				e.stepTags = ""
+			}
+			e.optional = nil
+		}
+		if len(e.Viol) > 0 {
+			return
 		}
 	}
-	slots := make([]int, 0, len(e.M.Conns))
-	for s := range e.M.Conns {
-		slots = append(slots, s)
+}
+
+func (e *Exec) hasPending(s *MSession) bool {
+	for _, slot := range s.Members {
+		if mc := e.M.Conns[slot]; mc != nil && (len(mc.PendingPose) > 0 || len(mc.PendingComp) > 0) {
+			return true
+		}
+	}
+	return false
+}
+
+// flushSession: the frame worker of s ticked at instant at; the pending pose
+// and component updates of its members are processed.
+func (e *Exec) flushSession(sess *MSession, at time.Time, cands map[*MSession]map[CompKey][][]byte) {
+	slots := make([]int, 0, len(sess.Members))
+	for _, sl := range sess.Members {
+		slots = append(slots, sl)
 	}
 	sort.Ints(slots)
 	for _, slot := range slots {
 		mc := e.M.Conns[slot]
-		if !mc.joined() || !ticked[mc.Sess] {
+		if mc == nil || !mc.joined() || mc.Sess != sess {
 			continue
+		}
+		if len(mc.PendingPose) > 0 || len(mc.PendingComp) > 0 {
+			mc.LastAct = at // consuming the released updates resets the idle timer
 		}
 		s := mc.Sess
 		eids := make([]uint32, 0, len(mc.PendingPose))
@@ -1384,9 +1535,6 @@ func (e *Exec) advance(d time.Duration) {
 				}
 				return ""
 			})
-		}
-		if e.D.Ended(slot) {
-			e.fail("C08,C11", "connection c%d was ended by the server while its pending updates were processed", slot)
 		}
 	}
 }
@@ -2086,5 +2234,134 @@ func (e *Exec) reconcileCompConflicts(cands map[*MSession]map[CompKey][][]byte) 
 				}
 			}
 		}
+	}
+}
+
+// ---------------------------------------------------------------------------
+// hostile client behaviour (C08): undecodable frames, text frames, frames
+// whose typed body does not decode, bursts, silence, stalls, aborts.
+
+// Hostile is implemented by drivers that own a real connection.
+type Hostile interface {
+	SendText(slot int, s string)
+	SendNoWait(slot int, b []byte) error
+	SendBurst(slot int, frames [][]byte)
+	Settle()
+	Stall(slot int)
+	Abort(slot int)
+}
+
+// badTyped builds a frame whose envelope (type, timestamp) decodes but whose
+// typed body does not: the handler (or the dispatcher) returns an error.
+func (e *Exec) badTyped(kind int) []byte {
+	ts := e.reqTS()
+	env := func(t int32) []byte {
+		b, _ := proto.Marshal(&hagallpb.Msg{Type: hagallpb.MsgType(t), Timestamp: ts})
+		return b
+	}
+	switch kind % 4 {
+	case 0: // ENTITY_ADD_REQUEST, field 3 (pose) is not a valid sub-message
+		return append(env(TEntityAddReq), 0x1a, 0x02, 0x0d, 0x01)
+	case 1: // PARTICIPANT_JOIN_REQUEST, field 3 (session id) is not valid UTF-8
+		return append(env(TJoinReq), 0x1a, 0x02, 0xff, 0xfe)
+	case 2: // ENTITY_UPDATE_POSE, field 4 (pose) truncated: fails in the dispatcher
+		return append(env(TPose), 0x22, 0x03, 0x0d, 0x00, 0x00)
+	default: // TYPE_ADD_REQUEST, field 3 (name) is not valid UTF-8
+		return append(env(TTypeAddReq), 0x1a, 0x01, 0xc0)
+	}
+}
+
+func (e *Exec) doHostile(mc *MConn, st Step, req uint32) {
+	h, ok := e.D.(interface{ Inner() Driver })
+	var hd Hostile
+	if ok {
+		hd, _ = h.Inner().(Hostile)
+	}
+	if hd == nil {
+		return // the handler-level driver has no connection to abuse
+	}
+	e.stepTags = "C08"
+	switch st.Op {
+	case OpGarbage:
+		b := st.Raw
+		if _, decodes := bytesToWire(b); decodes {
+			e.label("garbage_decodes_skipped")
+			return
+		}
+		e.label("garbage_frame")
+		e.D.SendBytes(mc.Slot, b)
+		e.collect()
+		e.expectEnded(mc, "C08,C06", "an undecodable frame")
+	case OpText:
+		e.label("text_frame")
+		hd.SendText(mc.Slot, st.Name)
+		e.collect()
+		e.expectEnded(mc, "C08,C06", "a text frame")
+	case OpBadTyped:
+		e.label("bad_typed_frame")
+		e.D.SendBytes(mc.Slot, e.badTyped(int(st.Count)))
+		e.collect()
+		e.expectEnded(mc, "C08,C06", "a frame whose body does not decode")
+	case OpBurstBad:
+		k := int(st.Count)
+		if k < 1 {
+			k = 1
+		}
+		e.label("burst_bad")
+		if k >= 9 {
+			e.label("burst_bad_9plus")
+		}
+		var frames [][]byte
+		for i := 0; i < k; i++ {
+			frames = append(frames, e.badTyped(int(st.Flag)+i*int(st.TNano)))
+		}
+		hd.SendBurst(mc.Slot, frames)
+		hd.Settle()
+		e.collect()
+		e.expectEnded(mc, "C08,C06", fmt.Sprintf("a burst of %d failing requests", k))
+	case OpBurstPing:
+		k := int(st.Count)
+		if k < 1 {
+			k = 1
+		}
+		e.label("burst_ping")
+		var ids []uint32
+		var frames [][]byte
+		for i := 0; i < k; i++ {
+			e.nextReq++
+			ids = append(ids, e.nextReq)
+			b, _ := proto.Marshal(&hagallpb.Request{Type: TPingReq, Timestamp: e.reqTS(), RequestId: e.nextReq})
+			frames = append(frames, b)
+		}
+		hd.SendBurst(mc.Slot, frames)
+		hd.Settle()
+		e.collect()
+		for _, id := range ids {
+			if _, ok := e.take(mc.Slot, isResp(TPingResp, id)); !ok {
+				e.fail("C08,C04", "ping %d of a burst of %d was not answered", id, k)
+				return
+			}
+		}
+		mc.LastAct = time.Now()
+	case OpSilence:
+		// nobody sends anything for a while; time passes frame by frame
+		n := int(st.Count)
+		e.label("silence")
+		for i := 0; i < n && len(e.Viol) == 0; i++ {
+			e.advance(e.D.Frame())
+			e.after(nil)
+		}
+	case OpStall:
+		if !mc.Stalled {
+			e.label("stall")
+			hd.Stall(mc.Slot)
+			mc.Stalled = true
+		}
+	case OpAbort:
+		e.label("abort")
+		hd.Abort(mc.Slot)
+		e.collect()
+		e.departure(mc, "C08")
+		mc.Ended = true
 	}
 }
